@@ -113,7 +113,10 @@ def render_node(ctx, n, keypos=False):
             tag = "!!python/tuple " if k == "t" else ""
             return anchor + tag + "[" + ", ".join(parts) + "]", nid
         if k in ("m", "obj", "objs"):
-            ctx.expect[nid] = (k, [])
+            yflavour = k != "m" and len(n) > 3 and n[3] == "y"        # a YAMLObject subclass instead of a python/object tag
+            ctx.expect[nid] = (k, [], {"obj": "YNode", "objs": "YNodeS"}[k] if yflavour else {"obj": "Node", "objs": "NodeS", "m": "dict"}[k])
+            if yflavour:
+                ctx.cl.add("yamlobject-instance")
             parts = []
             used = set()
             for i, (kn, vn) in enumerate(n[2]):
@@ -135,6 +138,8 @@ def render_node(ctx, n, keypos=False):
             if k == "objs":
                 ctx.has_objs = True
             tag = {"obj": "!!python/object:canary_objs.Node ", "objs": "!!python/object:canary_objs.NodeS ", "m": ""}[k]
+            if yflavour:
+                tag = {"obj": "!ynode ", "objs": "!ynodes "}[k]
             return anchor + tag + "{" + ", ".join(parts) + "}", nid
         if k == "set":
             ctx.expect[nid] = (k, [])
@@ -175,6 +180,8 @@ def level_of(n):
     if k in ("a", "s"):
         return 0
     lv = {"t": 1, "obj": 2, "objs": 2}.get(k, 0)
+    if k in ("obj", "objs") and len(n) > 3 and n[3] == "y":
+        lv = 0
     if k in ("q", "t", "set"):
         return max([lv] + [level_of(c) for c in n[2]])
     return max([lv] + [max(level_of(a), level_of(b)) for a, b in n[2]])
@@ -271,7 +278,7 @@ def match(obj, rid, expect, a2p, p2a, path="$"):
         elif kind in ("m", "obj", "objs"):
             d = o
             if kind != "m":
-                if type(o).__name__ != {"obj": "Node", "objs": "NodeS"}[kind]:
+                if type(o).__name__ != e[2]:
                     return "%s: %s instance expected, found %.60r" % (path, kind, o)
                 d = o.__dict__
             elif type(o) is not dict:
@@ -280,7 +287,7 @@ def match(obj, rid, expect, a2p, p2a, path="$"):
                 return "%s: %d entries expected, found %.80r" % (path, len(e[1]), d)
             for kid, vid in e[1]:
                 if expect[kid][0] in ("obj", "objs"):
-                    cands = [x for x in d if type(x).__name__ in ("Node", "NodeS")]
+                    cands = [x for x in d if type(x).__name__ in ("Node", "NodeS", "YNode", "YNodeS")]
                     if len(cands) != 1:
                         return "%s: exactly one instance key expected, found %.80r" % (path, list(d))
                     stack.append((cands[0], kid, "%s.<instance key>" % path))
@@ -436,6 +443,7 @@ def _paths():
     if d not in sys.path:
         sys.path.append(d)
     import canary_objs  # noqa: F401
+    import canary_yobjs  # noqa: F401
 
 
 def eval_case(case):
@@ -449,6 +457,21 @@ def eval_case(case):
     failures = []
     evals = 0
     budget = 20000 + 4000 * len(text)
+    # delivery form (a pure function of the document): the text itself, or a text / byte stream whose read() returns
+    # small pieces, so that anchor and alias names straddle the reader's refills
+    from checks.c07 import ChunkedText, ChunkedBytes
+    from vlib.runner import h64
+    hv = h64(text)
+    form = hv % 3
+    piece = 1 + (hv // 3) % 7
+    cl.add("delivery:%s" % ["str", "text-stream-in-pieces", "byte-stream-in-pieces"][form])
+
+    def deliver():
+        if form == 0:
+            return text
+        if form == 1:
+            return ChunkedText(text, [piece])
+        return ChunkedBytes(text.encode("utf-8"), [piece])
     # what the documented construction order can build: index of the first document that must be rejected, if any
     rejected_doc = None
     for i, (rid, expect) in enumerate(roots):
@@ -464,7 +487,7 @@ def eval_case(case):
         for cname, L in [("py", yaml.Loader)] + ([("c", yaml.CLoader)] if have_c() else []):
             evals += 1
             try:
-                nodes = list(yaml.compose_all(text, Loader=L))
+                nodes = list(yaml.compose_all(deliver(), Loader=L))
             except RecursionError:
                 raise
             except Exception as e:
@@ -481,7 +504,7 @@ def eval_case(case):
         got = None
         try:
             with CallBudget(budget if not lname.startswith("C") else None):
-                got = list(yaml.load_all(text, Loader=L))
+                got = list(yaml.load_all(deliver(), Loader=L))
         except BudgetExceeded as e:
             failures.append(Failure("call-budget-exceeded:%s" % lname, "more than %d calls\ntext=%r" % (budget, text[:300])))
             continue
@@ -540,6 +563,7 @@ def graphs(max_leaves=12):
             st.tuples(st.just("o"), anc, st.lists(st.tuples(key, ch), max_size=3), st.sampled_from(["omap", "pairs"])),
             st.tuples(st.just("t"), anc, st.lists(ch, max_size=3)),
             st.tuples(st.sampled_from(["obj", "objs"]), anc, st.lists(st.tuples(skey, ch), max_size=3)),
+            st.tuples(st.sampled_from(["obj", "objs"]), anc, st.lists(st.tuples(skey, ch), max_size=3), st.just("y")),
             st.tuples(st.just("m"), anc, st.lists(st.tuples(st.one_of(key, st.tuples(st.sampled_from(["obj", "objs"]), anc, st.lists(st.tuples(skey, ch), max_size=2))), ch), max_size=3)))
     return st.recursive(leaf, extend, max_leaves=max_leaves)
 
@@ -558,7 +582,7 @@ def arms(tier):
             Arm("illformed", eval_case, illformed_cases, quick=8000, thorough=150000)]
 
 
-REQUIRED_CLASSES = ["alias-to-container", "alias-to-finished-container", "alias-to-ancestor", "alias-to-scalar", "defect:undefined-alias", "defect:cross-document-alias",
+REQUIRED_CLASSES = ["yamlobject-instance", "delivery:text-stream-in-pieces", "delivery:byte-stream-in-pieces", "alias-to-container", "alias-to-finished-container", "alias-to-ancestor", "alias-to-scalar", "defect:undefined-alias", "defect:cross-document-alias",
                     "defect:duplicate-anchor", "defect:container-as-own-key", "level:safe", "level:full", "level:unsafe", "docs=2", "instance-as-key"]
 
 
